@@ -1,30 +1,42 @@
 (* C13: an upsert inserts exactly one well-formed document iff nothing matches.
-   Property statements only; the proofs are in Proofs/C13Proofs.v.
+   Property statements only; the proofs are in Proofs/C13Proofs.v and Proofs/C13Id.v.
 
    The full target
 
      Theorem C13_history : forall (pre5 : bool) (ops : list op),
        c13_reasons ops (model_obs pre5 empty_coll ops) = 0 ->
+       c13_undecided ops = false ->          (* the syntactic screen of Spec/HistPropCheck.v *)
        c13_ok ops (model_obs pre5 empty_coll ops) = true.
 
-   is NOT a theorem: Refuted/C13.v (part B) has histories inside the guard on which c13_ok is
-   false.  What is proved is the statement for c13w_ok, the predicate c13_ok with the last two
-   conjuncts of c13_upsert_ok removed (c13w_upsert_ok in Proofs/C13Proofs.v):
-     - kept: an update/replace with upsert=true that succeeds leaves the number of documents
-       unchanged and reports upserted_id None when `scan` finds a match in the store before the
-       operation; and when it finds none, appends exactly one document to the otherwise
-       unchanged store, reports matched 0 and a non-null upserted_id which is the _id of the
-       new (last) document;
-     - removed: the upserted _id is the filter's, else the update's, else a fresh ObjectId
-       (false: Refuted A4, B1, B3, B4); the new document matches an equality-only filter the
-       update does not overwrite (false: Refuted B5-B6).
-   c13_reasons has three bits (Spec/HistGuards.v, Refuted/C13.v part A); a fourth one (8: the
-   upserted _id is a datetime the normalisation changes) became unnecessary when the library
-   was repaired to key the store by, and return, the normalised _id, and was removed. *)
+   is proved for all of c13_ok EXCEPT its last conjunct.  c13_upsert_ok says, of an
+   update/replace with upsert=true that succeeds:
+     (1) when `scan` finds a match in the store before the operation: the number of documents
+         is unchanged and upserted_id is None;
+     (2) when it finds none: exactly one document is appended to the otherwise unchanged
+         store, matched is 0, upserted_id is non-null and is the _id of the new document;
+     (3) the upserted _id is the filter's _id, else the update's, else a fresh ObjectId;
+     (4) (update_one/update_many only) an equality-only filter the update does not overwrite
+         is matched by the upserted document.
+   C13_history_partial proves (1)-(2) (c13w_ok) from the guard alone; C13_history_id_partial
+   proves (1)-(3) (c13i_ok, Proofs/C13Id.v) from the guard, the syntactic screen and
+   well-formed arguments (op_wf, Proofs/C02History.v: no repeated key in any sub-document of
+   the filters and update documents: Python dicts; the hypothesis is used by the proof, no
+   counterexample without it is known).  (4) is NOT proved: it needs the matcher's result on
+   the document built from the seed (expand_dots / discard_ops / the update operators /
+   normalisation) for every equality field of the filter.
+   Without the screen (3) and (4) are false on the model (Refuted/C13.v part B); inside the
+   screen two further classes were found and are now bits of c13_reasons (part C):
+     32 = the update addresses a path strictly below _id ({$set: {"_id.x": 1}}): (3) fails;
+     64 = the filter binds _id to None ({_id: None, a: 1}): a fresh ObjectId replaces it, the
+          upserted document does not match the filter: (4) fails.
+   The older bits are 1, 2, 4 (Spec/HistGuards.v, Refuted/C13.v part A); 8 was removed when the
+   library was repaired to key the store by, and return, the normalised _id; 16 is used by
+   c13_check for the screen. *)
 From Coq Require Import ZArith List String Bool Ascii.
 From Verif Require Import Value PyEq BsonOrder Path Filter Update Project Coll HistCheck HistProps
-  HistGuards.
-From Verif.Proofs Require Import C13Proofs.
+  HistGuards HistPropCheck.
+From Verif.Proofs Require Import C13Proofs C13Id.
+From Verif.Proofs Require C02History.
 Import ListNotations.
 Open Scope Z_scope.
 Open Scope string_scope.
@@ -41,3 +53,36 @@ Theorem C13_weakening : forall (ops : list op) (os : list obs),
   c13_ok ops os = true -> c13w_ok ops os = true.
 Proof. exact c13_ok_weaken. Qed.
 Print Assumptions C13_weakening.
+
+(* clauses (1)-(3): the guard, the syntactic screen, well-formed arguments *)
+Theorem C13_history_id_partial : forall (pre5 : bool) (ops : list op),
+  Forall C02History.op_wf ops ->
+  c13_reasons ops (model_obs pre5 empty_coll ops) = 0 ->
+  c13_undecided ops = false ->
+  c13i_ok ops (model_obs pre5 empty_coll ops) = true.
+Proof. exact c13_history_id. Qed.
+Print Assumptions C13_history_id_partial.
+
+(* c13i_ok lies between c13_ok and c13w_ok: c13_ok without its last conjunct *)
+Theorem C13_weakening_id : forall (ops : list op) (os : list obs),
+  c13_ok ops os = true -> c13i_ok ops os = true.
+Proof. exact c13_ok_weaken_i. Qed.
+Print Assumptions C13_weakening_id.
+
+Theorem C13_weakening_id_w : forall (ops : list op) (os : list obs),
+  c13i_ok ops os = true -> c13w_ok ops os = true.
+Proof. exact c13i_ok_weaken. Qed.
+Print Assumptions C13_weakening_id_w.
+
+(* the key step: in a state without TTL index, an upsert that matches nothing and succeeds
+   reports as upserted_id the filter's non-null _id, and a fresh ObjectId when the filter has
+   none *)
+Theorem C13_upsert_id : forall pre5 c f u multi c' v,
+  noTTL c -> wf_value f = true -> wf_value u = true ->
+  c13_writes_id u = false -> c13_odd_filter f = false ->
+  (first_key_dollar u = Some true -> c13_id_subfield u = false) ->
+  scan (patch f) (docs c) = Ok [] ->
+  update pre5 c f u multi true = (c', Ok v) ->
+  exists id, v = update_result 1 0 (Some id) /\ id_src_ok f id.
+Proof. exact update_upsert_id. Qed.
+Print Assumptions C13_upsert_id.
